@@ -6,6 +6,7 @@ CONSTANTS
   KF_FindUnitRelock = FALSE
   MaxOps = 0
   ExportOps = 0
+  RequestStateKeptAcrossLines = FALSE
   VerifierRemembersTokens = TRUE
   RedactNeedsTLSRecord = FALSE
   KeyFamily = "cover"
